@@ -58,7 +58,7 @@ def check(ctx, case):
 
 
 def part_walk(ctx):
-    n = 400 if ctx.tier == "quick" else 6000
+    n = 1000 if ctx.tier == "quick" else 6000
     hyp_run(ctx, CASE, lambda c: check(ctx, c), n, name="walk")
 
 
